@@ -832,6 +832,10 @@ func (s *Stream) handshake(addr string, headers []Header, callback func(err erro
 			if err == nil {
 				err = s.upgrade(url, stream, headers)
 			}
+			if err != nil {
+				// A failed handshake must not leave the connection open: nobody else is going to close it.
+				_ = s.CloseNextLayer()
+			}
 			callback(err, stream)
 		})
 	}
